@@ -98,6 +98,7 @@ package manager
 //@   modifies mgr.usedIndexes
 //@   ensures snapshot: len(result0) == len(mgr.indexes) - start && forall(k, 0, len(result0), result0[k] == mgr.indexes[start+k])
 //@   ensures handle: seq_eq(result1, result0)
+//@   ensures copied: len(result0) == 0 || !same_slice(result0[:0], mgr.indexes[start:][:0])
 //@   ensures held: forall(k, 0, len(result0), haskey(mgr.usedIndexes, result0[k]))
 //@   ensures once: ncalls("(*Manager).lock") == 1
 
@@ -109,7 +110,7 @@ package manager
 //@   assert before call (*indexReleaser).release#1: own: same_slice(*arg0, existingIndexesReleaser)
 //@   assert before call (*Manager).lock#1: created: same_slice(arg1, createdIndexes)
 //@   ensures pairing: ncalls("(*indexReleaser).release") == 1 && ncalls("(*Manager).lock") == ite(len(createdIndexes) > 0, 1, 0)
-//@   ensures next_job: ncalls("(*Manager).getIndexesCopy") <= 1
+//@   assert before call (*Manager).startTaggingJobIfNeeded#1: next_job: ncalls("(*Manager).getIndexesCopy") == ite(len(mgr.importJobs) >= 1, 1, 0)
 
 //@ func (*Manager).convertStreamJob$4
 //@   prop C13
